@@ -5,11 +5,13 @@ from vf.gen import pick_weighted
 from props.b10util import parse_expanded as parse_out, coq_ops, coq_universe
 
 ID = "C39"
-THEOREMS = ["C39_placeholder"]
+THEOREMS = ["C39_refines_rule", "C39_old_checked", "C39_new_exists", "C39_run_consistent", "C39_refs_closed",
+            "C39_report_exact", "C39_not_accepted_no_update"]
 MODEL_FILES = ["ReceivePack.v"]
-MODELLED = ("plumbing/transport/receive_pack.go: ReceivePack control flow after decoding (empty request, malformed command, packfile need, "
-            "report-status gate, unpack-error report, PreReceive rejection, PostReceive applied list), updateReferences, setStatus, "
-            "referenceExists, sendReportStatus (Model/ReceivePack.v) over the abstract store (Spec/AStore.v). Not modelled: pkt-line / "
+MODELLED = ("plumbing/transport/receive_pack.go (with the three fix commits): ReceivePack control flow after decoding (empty request, malformed "
+            "command, duplicate-name refusal, packfile need, report-status gate, unpack-error report, PreReceive rejection, PostReceive applied "
+            "list), updateReferences, currentReference, setStatus, sendReportStatus incl. the unpack line carrying the first command error "
+            "(Model/ReceivePack.v) over the abstract store (Spec/AStore.v). Not modelled: pkt-line / "
             "sideband framing, capability parsing, push options, advertisement, packfile parsing (a pack is the set of its objects), "
             "context cancellation; concurrency of two pushes (every update is one storer call: C16)")
 TRUSTED = [
